@@ -12,20 +12,20 @@ CHECKS = {
                 text="every token sequence (<=3, thorough <=4) over a 30-symbol value alphabet in 5 wrappings, every string <=3 over 56 symbols "
                      "spelled quoted, and every model document of the structure/value/adjacency/decoration sweeps in canonical and lenient "
                      "renderings is canonicalised by the real reader+emitter; metamorphic oracle: canonical text is strict-readable and a byte-exact "
-                     "fixed point; tool routes (octave_validate fed back, octave_write then normalize, CLI normalize twice) on the value sweep",
+                     "fixed point; tool routes (octave_validate fed back, octave_write then normalize, CLI normalize twice) on the value sweep; plus the comment-placement sweep (every skeleton x every set of <=2 occupied comment places incl. header/footer), block targets with and without the section marker and 20 frontmatter shapes",
                 note="finite alphabets and bounded document sizes (DESIGN.md §4/§7); no expectation about what the canonical text is",
                 tech="small-scope exhaustive enumeration of inputs (bounded model checking of emit∘parse as a fixed-point relation)"),
     "C02": dict(level="exploration", engine=E1,
                 text="every model document of S(4,3) (thorough S(5,4)), every pool value in 20 contexts, every ordered pair of pool values as "
                      "siblings and the decoration product is rendered canonically and in all lenient choice combinations up to the site bound and read "
-                     "by the real readers; oracle: astmap(read(text)) equals the generator's content model, also after emit and strict re-read",
+                     "by the real readers; oracle: astmap(read(text)) equals the generator's content model, also after emit and strict re-read; comment-placement sweep (9 skeletons x 3 META variants x all sets of <=2 of the node-lead / trailing / orphan / document-trailing / header / footer comment places), block-target and frontmatter shapes; header/footer comments are compared against the exact relocation the AST forces (KF-C02-1/2) and against nothing weaker",
                 note="the expected content comes from vt/docmodel.py, never from the parser; renderings stay inside the documented grammar",
                 tech="exhaustive enumeration of a bounded document space against an independent reference content model"),
     "C03": dict(level="exploration", engine=E1,
                 text="for every model document the product of choices at every lenient site (alias per operator occurrence, :: spacing, indent "
                      "width, blank/whitespace-only lines, trailing spaces, list layout, optional/triple quotes, omitted END) is enumerated (full "
                      "product up to 6 sites, thorough 10; singles+pairs+all-on beyond); all canonicalise to identical bytes and an independent "
-                     "line-level recogniser accepts every canonical text as strict profile",
+                     "line-level recogniser accepts every canonical text as strict profile; the recogniser also enforces the list-item / closing-bracket indent of multi-line lists; trailing blanks on envelope, META and separator lines, comment places and block-target spellings are rewrite sites too",
                 note="only the lenient freedoms listed in the property; strict-profile recogniser written from the documentation",
                 tech="exhaustive enumeration of the product of rewrite sites per document; convergence + independent recogniser"),
     "C04": dict(level="exploration", engine=E1,
@@ -36,7 +36,7 @@ CHECKS = {
     "C05": dict(level="exploration", engine=E1,
                 text="all zone contents of <=2 lines (thorough 3) over 28 line atoms x fence lengths x tags x 10 placements through 17 pipelines "
                      "(readers, emit twice, validate x3, write content/lenient/changes/normalize, seal, eject octave/json, CLI normalize); zone bytes "
-                     "compared at AST and at text-between-fences level, rest of the document against the content model",
+                     "compared at AST and at text-between-fences level, rest of the document against the content model; placements include NFC-unstable text before the zone and a document with YAML frontmatter; atoms include fence-shaped NFC-unstable lines and every non-LF line-boundary character",
                 note="finite atom alphabet; tags without outer blanks; never generates a nested fence (documented error)",
                 tech="exhaustive enumeration of zone contents x placements x pipelines against the generator's model"),
     "C06": dict(level="model_checking", engine="E6 process matrix + virtual asyncio loop (vt/env/procmatrix.py, vt/env/aioloop.py)",
@@ -44,7 +44,7 @@ CHECKS = {
                      "real code and compared byte-for-byte (timestamps masked) with the reference run of the same call alone in a fresh "
                      "process: full product PYTHONHASHSEED x cwd (two directories with identical schemas, and /) x locale over 270 calls; every "
                      "ordered pair of a 40-call (thorough 80) alphabet in long-lived workers; every ready-handle order of 2 (thorough 3) "
-                     "concurrently scheduled tool tasks on a virtual event loop against the sequential results",
+                     "concurrently scheduled tool tasks on a virtual event loop against the sequential results; histories in which the schema's text is edited between calls (call | edit | call | edit back | call vs fresh processes); two threads over six workload pairs under a preemption-bounded scheduler (sys.monitoring): p=1 at call/return granularity (thorough: line granularity, plus p=2 at call granularity)",
                 note="timestamps masked by key name; OS-thread interleavings inside one interpreter are not enumerated (DESIGN.md §7)",
                 tech="explicit enumeration of configurations x ordered call pairs x event-loop schedules on the implementation, differential "
                      "against a fresh-process reference (stateless model checking)"),
@@ -58,46 +58,46 @@ CHECKS = {
     "C09": dict(level="exploration", engine=E1,
                 text="34 instance variants of a generated schema (valid; invalid in each single way) x every lenient rendering (site product up "
                      "to the bound, singles+all-on beyond, thorough all pairs) + canonical(x) + canonical(canonical(x)) x 4 profiles x 4 entry "
-                     "points; identical (status, {(code, field)}) for all spellings, canonical text unchanged with fix off, idempotent envelopes",
+                     "points; identical (status, {(code, field)}) for all spellings, canonical text unchanged with fix off, idempotent envelopes; one Validator OBJECT reused for every document of a worker (twice per document); schemas that validate the YAML frontmatter (packaged SKILL) over 11 frontmatter shapes",
                 note="respellings are the documented lenient freedoms; the reference outcome is the canonical rendering's",
                 tech="exhaustive enumeration of respellings per (schema, instance); metamorphic equality of verdicts"),
     "C10": dict(level="exploration", engine=E1,
                 text="full product of tool arguments (content class x schema argument x profile x every flag/mode/format) for octave_validate, "
                      "octave_write, octave_eject, octave_compile_grammar and the CLI; invariants on every envelope: status present and one of the "
                      "documented values, VALIDATED only when a schema of that name exists (own directory scan) and no error-severity finding, "
-                     "UNVALIDATED otherwise, INVALID iff errors",
+                     "UNVALIDATED otherwise, INVALID iff errors; schema life cycle: every event sequence of length <=4 (thorough 5) over {install v1, install v2, delete, go away, come back} against a (cwd, file) state model - after EVERY event validate and write must answer UNVALIDATED / VALIDATED / INVALID as the state says",
                 note="LENIENT/ULTRA profiles downgrade by design; W_STRUCT salvage wraps are readable content (DESIGN.md §6)",
                 tech="exhaustive enumeration of the argument product; envelope invariants"),
     "C11": dict(level="exploration", engine=E1,
                 text="2 generated schemas x every perturbation of every field value (all case variants of ENUM members, prefixes, numeric strings "
                      "in every notation, wrong kinds) x 8 placements single and repeated + missing/extra-field documents through repair(), "
                      "octave_validate fix on/off, octave_write lenient+schema and `octave validate --fix`; structural diff before/after "
-                     "reconciled with the repair log",
+                     "reconciled with the repair log; ENUMs with 3- and 4-way case collisions; fix off (explicit and omitted) under every profile",
                 note="lossless text-to-number means Decimal equality; the property restricts the kind of change, not its location",
                 tech="exhaustive enumeration of value perturbations x placements; diff/log reconciliation oracle"),
     "C12": dict(level="exploration", engine=E1,
                 text="single-field schemas = 30 names x (every constraint atom + 24 REGEX patterns + 2-member chains), two-field schemas = all "
                      "ordered pairs of names, consecutive compilations in one process, through 7 grammar-returning routes; every grammar is read "
-                     "by an independent reader of llama.cpp grammar syntax (root defined, every reference defined, no rule twice, no empty alternative)",
+                     "by an independent reader of llama.cpp grammar syntax (root defined, every reference defined, no rule twice, no empty alternative); REGEX pool includes several classes with literal glue and '#' inside literals/classes",
                 note="llama.cpp grammar syntax as implemented by its parser (vt/oracles/gbnf.py)",
                 tech="exhaustive enumeration of schema programs; independent GBNF recogniser as oracle"),
     "C13": dict(level="exploration", engine=E1,
                 text="for every decided chain (CONST/ENUM/BOOLEAN/NUMBER/DATE/ISO8601 alone or with REQ/OPT) the compiled field rule is "
                      "interpreted by an independent GBNF derivation enumerator and ALL derivations within the bound are read by the real reader and "
-                     "judged by the field's own chain",
+                     "judged by the field's own chain; literals include integers above 2^53, booleans, zero spellings and astral / combining code points",
                 note="ws derived as empty; NUMBER up to k digits (adaptive budget), DATE/ISO8601 over a per-position digit sub-alphabet",
                 tech="bounded exhaustive enumeration of grammar derivations, replayed against the validator"),
     "C14": dict(level="exploration", engine=E1,
                 text="model documents (6 filter-key shapes x every pool value, duplicate keys, sections, zones, holographic, S(3,3)) x 4 modes x 4 "
                      "formats through octave_eject (one process, fixed order) and `octave eject`; leaf multisets extracted independently from "
-                     "each output are a sub-multiset of the source model's and lossy is true iff something was removed",
+                     "each output are a sub-multiset of the source model's and lossy is true iff something was removed; documents with filter keys of one mode nested under the other mode's subtree and zones whose bytes a trim / NFC pass would change; Markdown's key set must equal the OCTAVE rendering's key set of the same projection",
                 note="JSON/YAML cannot tell a block from an inline map; markdown compared on leaf paths only",
                 tech="exhaustive enumeration of documents x modes x formats; independent leaf extraction"),
     "C15": dict(level="exploration", engine=E1,
                 text="for every model document: seal->verify in memory / after text round trip / sealed twice / after every cosmetic respelling; "
                      "EVERY single-site content mutation (leaf replaced by same- and other-type value, key renamed, node deleted/duplicated/"
                      "moved/re-nested, META field, envelope name, frontmatter, each hash digit) must verify INVALID; unsealed -> NO_SEAL; same "
-                     "through `octave seal` / `octave validate --verify-seal --require-seal`",
+                     "through `octave seal` / `octave validate --verify-seal --require-seal`; every single comment place (incl. footer comments); cosmetic respellings of the sealed FILE through the CLI too",
                 note="comment edits are not generated as tampering (not among the sealed content kinds)",
                 tech="exhaustive enumeration of single-site mutations and respellings per document"),
     "C16": dict(level="fault_enumeration", engine="E5 libc interposer (vt/fsshim)",
@@ -105,7 +105,7 @@ CHECKS = {
                      "EVERY file-system call boundary of the fault-free run is taken as kill point, power-loss point (unsynced data lost, "
                      "un-fsynced rename may or may not persist) and injected failure for 5 errnos, plus second deviations (fault then fault/"
                      "kill) as a deviation tree; oracle from the supervising process: target is complete old or complete new bytes, errors "
-                     "leave bytes+mode unchanged and no temp sibling, success implies sha256(file)==canonical_hash",
+                     "leave bytes+mode unchanged and no temp sibling, success implies sha256(file)==canonical_hash; scenarios include files that are canonical apart from CRLF / bare-CR line ends; an external modification injected before every call boundary up to the install step (shim mode EDIT); and a second fault layer in-process: a transient OSError (EINTR, EIO, ENOSPC) raised once at the j-th call of every OS-facing Python function of the write path",
                 note="the interposer sees every libc file call of the child; kernel-internal non-atomicity outside the model",
                 tech="exhaustive fault/crash-point enumeration (deviation-bounded, 2 deviations) on the implementation"),
     "C17": dict(level="model_checking", engine="E5 libc interposer stepper + E7 virtual asyncio loop",
@@ -113,14 +113,14 @@ CHECKS = {
                      "normalize, each also dry, 4 external modifications) x base_hash {none,current,stale,future} from every reachable "
                      "state, plus literal histories <=3 in one process; (b) two writer processes with the same base_hash stepped at every "
                      "visible libc operation on the target - ALL interleavings with state merging, at most one success, file = winner's bytes; "
-                     "(c) all ready-handle orders of 2 tool tasks; failed and dry calls leave the whole directory tree untouched",
+                     "(c) all ready-handle orders of 2 tool tasks; failed and dry calls leave the whole directory tree untouched; every non-dry content/changes event also through `octave write` (refused vs success)",
                 note="base_hash on an absent file is UNSPECIFIED; writers share only the file system",
                 tech="explicit-state model checking: reference register model x implementation, all two-process schedules at libc call granularity"),
     "C18": dict(level="exploration", engine=E1,
                 text="base documents x every single change request {own top-level keys + 2 fresh} x {DELETE, null, 14 values} for body keys, "
                      "META.X and META{..}, all ordered request sequences <=k, multi-key requests; Absent at every AST position; oracle: frame "
                      "condition via an independent chunker (unnamed chunks byte-identical, same order), exact read-back of named keys; routes "
-                     "WriteTool and `octave write --changes`",
+                     "WriteTool and `octave write --changes`; a document with dotted / dashed / slashed keys and dotted META field names next to their own prefixes",
                 note="dict values compared on merged pairs; requests naming a block are outside the property's quantifier",
                 tech="exhaustive enumeration of change requests and short request sequences; frame-condition oracle"),
     "C19": dict(level="exploration", engine="E5 libc interposer (vt/fsshim) + " + E1,
@@ -134,14 +134,14 @@ CHECKS = {
                 text="for every model document every combination of options at its receipt-bearing rewrite sites (full product up to 8 sites) is "
                      "rendered with exact positions, with and without all other lenient freedoms; multiset equality between injected rewrites and "
                      "receipts of parse_with_warnings, octave_validate.repairs, octave_write corrections (strict and lenient), plus the converse on "
-                     "canonical renderings and on every canonical text of the token space",
+                     "canonical renderings and on every canonical text of the token space; pool strings include bare multi-word values with quoted chunks, frontmatter with non-LF line boundaries and block targets",
                 note="advisory receipts are ignored in both directions (DESIGN.md §5.7)",
                 tech="exhaustive enumeration of subsets of rewrite sites; bijection check between injected rewrites and receipts"),
     "C20": dict(level="exploration", engine=E1,
                 text="all token sequences <=4 (thorough 5) over a 32-symbol structural alphabet into tokenize/parse/parse_with_warnings/"
                      "parse_meta_only; sequences <=2 (thorough 3) and a pool of rich documents through 35 tool configurations; unicode category "
                      "representatives x 19 contexts; every 1-line delete/dup/swap/truncate of every packaged .oct.md; deterministic executed-line "
-                     "growth on 29 size-scaled families; bracket nesting around the documented cap",
+                     "growth on 29 size-scaled families; bracket nesting around the documented cap; every string of <=3 (thorough 4) over 40 single characters, every character-granular prefix and suffix of the pool documents, special-case words (harvested from the sources at run time) x 13 templates x 12 values through readers and tools",
                 note="growth is decided on executed-line counts (sys.monitoring), not wall time; finite alphabets",
                 tech="exhaustive enumeration of token sequences and single-edit mutations; outcome-class oracle (Document | LexerError | ParserError)"),
 }
